@@ -31,7 +31,7 @@ class World(c01.World):
             if id(cl) in seen or getattr(cl, '_simkit_probe', False):
                 continue
             seen.add(id(cl))
-            sig = sysgen.sigma_ab(spec, a, b)
+            sig = sysgen.core_radius(spec, a, b)
             orig = cl.calculate
             pspec = spec['pairs'][sysgen.pkey(a, b)]
             if pspec['closure']['hc']:
